@@ -31,6 +31,7 @@ class RefExecutor(object):
         self.crashes = []         # paths whose resolver crashes
         self.introspection = introspection
         self.top_level_order = []
+        self.visited = []         # response paths of every field the algorithm resolves
 
     # -- CollectFields ------------------------------------------------------
     def directive_if(self, directives, name):
@@ -94,6 +95,7 @@ class RefExecutor(object):
 
     def execute_field(self, object_type, obj, key, fields, path):
         first = fields[0]
+        self.visited.append(path)
         if first.name == "__typename":
             return object_type
         st = self.s.types[object_type]
